@@ -468,6 +468,7 @@ class OutgoingRIB(Cache):
                 if limit > 0:
                     family_counts = prefix_counts.setdefault(family, {})
                     filtered: dict[bytes, 'Route'] = {}
+                    dropped: list['Route'] = []
                     for route_index, route in routes.items():
                         pkey = route.nlri.prefix_index()
                         count = family_counts.get(pkey, 0)
@@ -475,6 +476,11 @@ class OutgoingRIB(Cache):
                             filtered[route_index] = route
                             family_counts[pkey] = count + 1
                         else:
+                            # not sent: it is not part of the Adj-RIB-Out either
+                            seen = self._seen.get(family, {})
+                            if seen.get(route_index) is route:
+                                del seen[route_index]
+                            dropped.append(route)
                             log.debug(
                                 lazymsg(
                                     'rib.paths_limit.exceeded family={f} prefix={p} limit={l}',
@@ -484,6 +490,9 @@ class OutgoingRIB(Cache):
                                 ),
                                 'rib',
                             )
+                    # the peer may hold an earlier version of a path which is not sent: it does not stay
+                    for route in dropped:
+                        yield UpdateCollection([], [route.nlri], route.attributes)
                     routes = filtered
                     if not routes:
                         continue
